@@ -305,7 +305,7 @@ H_APPEND_STR(h_append_str_w, ((void)0))
   VF_ASSERT(view_eq(view_of(&t), b) && WF(t), "the source string is unchanged"); VF_REACH(); }
 /*@GROUP name=append_str_sub props=C04,C02,C05 kind=K unwind=11 when=VF_N<=7 objbits=12 unwindset=_ZN3etl4fillIPccEEvT_S2_RKT0_.0:3@*/
 H_APPEND_STR_SUB(h_append_str_sub, ((void)0))
-/*@GROUP name=append_str_sub_m props=C04,C02,C05 kind=K unwind=20 when=7<VF_N<=16 solver=kissat objbits=12 unwindset=_ZN3etl4fillIPccEEvT_S2_RKT0_.0:3@*/
+/*@GROUP name=append_str_sub_m props=C04,C02,C05 kind=K unwind=20 when=7<VF_N<=16 tier=thorough solver=kissat objbits=12 unwindset=_ZN3etl4fillIPccEEvT_S2_RKT0_.0:3@*/
 H_APPEND_STR_SUB(h_append_str_sub_m, ((void)0))
 /*@GROUP name=append_str_sub_w props=C04,C02,C05 kind=K unwind=35 when=VF_N>16 objbits=12 unwindset=_ZN3etl4fillIPccEEvT_S2_RKT0_.0:3 tier=thorough timeout=3000@*/
 H_APPEND_STR_SUB(h_append_str_sub_w, ((void)0))
@@ -353,10 +353,6 @@ H_POP_BACK(h_pop_back_w, ((void)0))
   POST(s, sp_splice(o, p, 0, f.a, umin(c, N - o.n)), "insert(index, count, ch): min(count, capacity - size) copies of ch before index; prefix and shifted suffix unchanged"); VF_ASSERT(r == &s, "insert returns *this"); VF_REACH(); }
 /*@GROUP name=insert_fill props=C04,C02,C05 kind=K unwind=11 when=VF_N<=7 objbits=12 tier=thorough@*/
 H_INSERT_FILL(h_insert_fill, ((void)0))
-/*@GROUP name=insert_fill_m props=C04,C02,C05 kind=K unwind=20 when=7<VF_N<=16 objbits=12 tier=thorough@*/
-H_INSERT_FILL(h_insert_fill_m, ((void)0))
-/*@GROUP name=insert_fill_w props=C04,C02,C05 kind=K unwind=35 when=VF_N>16 objbits=12 tier=thorough timeout=3000@*/
-H_INSERT_FILL(h_insert_fill_w, ((void)0))
 
 /*@COMMON@*/
 #define H_INSERT_PTR_N(NAME, KNOWN) void NAME(void) { ARB(s); VF_INPUT(unsigned char, p); VF_INPUT(unsigned char, c); view_t o = view_of(&s); __CPROVER_assume(p <= o.n && c <= N + 1); XBUF(char, src, c, N + 1); \
@@ -366,8 +362,6 @@ H_INSERT_FILL(h_insert_fill_w, ((void)0))
 H_INSERT_PTR_N(h_insert_ptr_n, ((void)0))
 /*@GROUP name=insert_ptr_n_m props=C04,C02,C05 kind=K unwind=20 when=7<VF_N<=16 objbits=12 tier=thorough@*/
 H_INSERT_PTR_N(h_insert_ptr_n_m, ((void)0))
-/*@GROUP name=insert_ptr_n_w props=C04,C02,C05 kind=K unwind=35 when=VF_N>16 objbits=12 tier=thorough timeout=3000@*/
-H_INSERT_PTR_N(h_insert_ptr_n_w, ((void)0))
 
 /*@COMMON@*/
 #define H_INSERT_SV(NAME, KNOWN) void NAME(void) { ARB(s); VF_INPUT(unsigned char, p); VF_INPUT(unsigned char, c); view_t o = view_of(&s); __CPROVER_assume(p <= o.n && c <= N + 1); XBUF(char, src, c, N + 1); \
@@ -377,8 +371,6 @@ H_INSERT_PTR_N(h_insert_ptr_n_w, ((void)0))
 H_INSERT_SV(h_insert_sv, ((void)0))
 /*@GROUP name=insert_sv_m props=C04,C02,C05 kind=K unwind=20 when=7<VF_N<=16 objbits=12 tier=thorough@*/
 H_INSERT_SV(h_insert_sv_m, ((void)0))
-/*@GROUP name=insert_sv_w props=C04,C02,C05 kind=K unwind=35 when=VF_N>16 objbits=12 tier=thorough timeout=3000@*/
-H_INSERT_SV(h_insert_sv_w, ((void)0))
 
 /*@COMMON@*/
 #define H_INSERT_CSTR(NAME, KNOWN) void NAME(void) { ARB(s); VF_INPUT(unsigned char, p); VF_INPUT(unsigned char, c); view_t o = view_of(&s); __CPROVER_assume(p <= o.n && c <= N + 1); CSTR(src, c, N + 1); \
@@ -388,8 +380,6 @@ H_INSERT_SV(h_insert_sv_w, ((void)0))
 H_INSERT_CSTR(h_insert_cstr, ((void)0))
 /*@GROUP name=insert_cstr_m props=C04,C02,C05 kind=K unwind=20 when=7<VF_N<=16 objbits=12 tier=thorough@*/
 H_INSERT_CSTR(h_insert_cstr_m, ((void)0))
-/*@GROUP name=insert_cstr_w props=C04,C02,C05 kind=K unwind=35 when=VF_N>16 objbits=12 tier=thorough timeout=3000@*/
-H_INSERT_CSTR(h_insert_cstr_w, ((void)0))
 
 /*@COMMON@*/
 #define H_INSERT_STR(NAME, KNOWN) void NAME(void) { ARB(s); ARB(t); VF_INPUT(unsigned char, p); view_t o = view_of(&s), b = view_of(&t); __CPROVER_assume(p <= o.n); \
@@ -400,8 +390,6 @@ H_INSERT_CSTR(h_insert_cstr_w, ((void)0))
 H_INSERT_STR(h_insert_str, ((void)0))
 /*@GROUP name=insert_str_m props=C04,C02,C05 kind=K unwind=20 when=7<VF_N<=16 objbits=12 tier=thorough@*/
 H_INSERT_STR(h_insert_str_m, ((void)0))
-/*@GROUP name=insert_str_w props=C04,C02,C05 kind=K unwind=35 when=VF_N>16 objbits=12 tier=thorough timeout=3000@*/
-H_INSERT_STR(h_insert_str_w, ((void)0))
 
 /*@COMMON@*/
 #define H_INSERT_STR_SUB(NAME, KNOWN) void NAME(void) { ARB(s); ARB(t); VF_INPUT(unsigned char, p); VF_INPUT(unsigned char, pos); VF_INPUT(unsigned long, cnt); VF_INPUT_BOOL(dflt); view_t o = view_of(&s), b = view_of(&t); \
@@ -411,10 +399,6 @@ H_INSERT_STR(h_insert_str_w, ((void)0))
   VF_ASSERT(view_eq(view_of(&t), b) && WF(t), "the source string is unchanged"); VF_REACH(); }
 /*@GROUP name=insert_str_sub props=C04,C02,C05 kind=K unwind=11 when=VF_N<=7 objbits=12 tier=thorough@*/
 H_INSERT_STR_SUB(h_insert_str_sub, ((void)0))
-/*@GROUP name=insert_str_sub_m props=C04,C02,C05 kind=K unwind=20 when=7<VF_N<=16 objbits=12 tier=thorough@*/
-H_INSERT_STR_SUB(h_insert_str_sub_m, ((void)0))
-/*@GROUP name=insert_str_sub_w props=C04,C02,C05 kind=K unwind=35 when=VF_N>16 objbits=12 tier=thorough timeout=3000@*/
-H_INSERT_STR_SUB(h_insert_str_sub_w, ((void)0))
 
 /*@COMMON@*/
 #define H_INSERT_SV_SUB(NAME, KNOWN) void NAME(void) { ARB(s); VF_INPUT(unsigned char, p); VF_INPUT(unsigned char, m); VF_INPUT(unsigned char, pos); VF_INPUT(unsigned long, cnt); VF_INPUT_BOOL(dflt); view_t o = view_of(&s); \
@@ -423,10 +407,6 @@ H_INSERT_STR_SUB(h_insert_str_sub_w, ((void)0))
   POST(s, sp_splice(o, p, 0, src + pos, umin(rlen, N - o.n)), "insert(index, sv, pos[, n]): the first min(rlen, capacity - size) characters of sv.substr(pos, n) before index"); VF_ASSERT(r == &s, "insert returns *this"); VF_REACH(); }
 /*@GROUP name=insert_sv_sub props=C04,C02,C05 kind=K unwind=11 when=VF_N<=7 objbits=12 tier=thorough@*/
 H_INSERT_SV_SUB(h_insert_sv_sub, ((void)0))
-/*@GROUP name=insert_sv_sub_m props=C04,C02,C05 kind=K unwind=20 when=7<VF_N<=16 objbits=12 tier=thorough@*/
-H_INSERT_SV_SUB(h_insert_sv_sub_m, ((void)0))
-/*@GROUP name=insert_sv_sub_w props=C04,C02,C05 kind=K unwind=35 when=VF_N>16 objbits=12 tier=thorough timeout=3000@*/
-H_INSERT_SV_SUB(h_insert_sv_sub_w, ((void)0))
 
 /*@COMMON@*/
 /* ---- erase */
@@ -441,8 +421,6 @@ H_INSERT_SV_SUB(h_insert_sv_sub_w, ((void)0))
 H_ERASE_IDX(h_erase_idx, VF_KNOWN(C05_erase_whole, xlen == o.n))
 /*@GROUP name=erase_idx_m props=C04,C02,C05 kind=K unwind=20 when=7<VF_N<=16 objbits=12 solver=kissat tier=thorough@*/
 H_ERASE_IDX(h_erase_idx_m, VF_KNOWN(C05_erase_whole, xlen == o.n))
-/*@GROUP name=erase_idx_w props=C04,C02,C05 kind=K unwind=35 when=VF_N>16 objbits=12 tier=thorough timeout=3000@*/
-H_ERASE_IDX(h_erase_idx_w, VF_KNOWN(C05_erase_whole, xlen == o.n))
 
 /*@COMMON@*/
 #define H_ERASE_IT(NAME, KNOWN) void NAME(void) { ARB(s); VF_INPUT(unsigned char, f); VF_INPUT(unsigned char, l); VF_INPUT_BOOL(one); view_t o = view_of(&s); \
@@ -454,8 +432,6 @@ H_ERASE_IDX(h_erase_idx_w, VF_KNOWN(C05_erase_whole, xlen == o.n))
 H_ERASE_IT(h_erase_it, VF_KNOWN(C05_erase_whole, l - f == o.n))
 /*@GROUP name=erase_it_m props=C04,C02,C05 kind=K unwind=20 when=7<VF_N<=16 objbits=12 solver=kissat tier=thorough@*/
 H_ERASE_IT(h_erase_it_m, VF_KNOWN(C05_erase_whole, l - f == o.n))
-/*@GROUP name=erase_it_w props=C04,C02,C05 kind=K unwind=35 when=VF_N>16 objbits=12 tier=thorough timeout=3000@*/
-H_ERASE_IT(h_erase_it_w, VF_KNOWN(C05_erase_whole, l - f == o.n))
 
 /*@COMMON@*/
 #define H_ERASE_VALUE(NAME, KNOWN) void NAME(void) { ARB(s); VF_INPUT(char, x); VF_INPUT_BOOL(pred); view_t o = view_of(&s); view_t e = sp_empty(); \
@@ -465,10 +441,8 @@ H_ERASE_IT(h_erase_it_w, VF_KNOWN(C05_erase_whole, l - f == o.n))
   VF_ASSERT(r == o.n - e.n, "erase / erase_if return the number of removed characters"); VF_REACH(); }
 /*@GROUP name=erase_value props=C04,C02 kind=K unwind=11 when=VF_N<=7 objbits=12@*/
 H_ERASE_VALUE(h_erase_value, VF_KNOWN(C05_erase_whole, e.n == 0))
-/*@GROUP name=erase_value_m props=C04,C02 kind=K unwind=20 when=7<VF_N<=16 objbits=12 solver=kissat tier=thorough@*/
+/*@GROUP name=erase_value_m props=C04,C02 kind=K unwind=20 when=7<VF_N<=16 solver=kissat timeout=3000 objbits=12 tier=thorough@*/
 H_ERASE_VALUE(h_erase_value_m, VF_KNOWN(C05_erase_whole, e.n == 0))
-/*@GROUP name=erase_value_w props=C04,C02 kind=K unwind=35 when=VF_N>16 objbits=12 tier=thorough timeout=3000@*/
-H_ERASE_VALUE(h_erase_value_w, VF_KNOWN(C05_erase_whole, e.n == 0))
 
 /*@COMMON@*/
 /* ---- replace.  Reference: [string.replace] (xlen = min(n1, size - pos); result = prefix + new text + suffix, the size changes by m - xlen).
@@ -693,8 +667,6 @@ H_STARTS_ENDS(h_starts_ends_w, ((void)0))
 H_CONTAINS(h_contains, VF_KNOWN(C04_find_empty_needle, nd.n == 0); VF_KNOWN(C04_find_overrun, sp_has_inner_nul(nd)))
 /*@GROUP name=contains_m props=C04,C02 kind=K unwind=20 when=7<VF_N<=16 tier=thorough@*/
 H_CONTAINS(h_contains_m, VF_KNOWN(C04_find_empty_needle, nd.n == 0); VF_KNOWN(C04_find_overrun, sp_has_inner_nul(nd)))
-/*@GROUP name=contains_w props=C04,C02 kind=K unwind=35 when=VF_N>16 tier=thorough timeout=3000@*/
-H_CONTAINS(h_contains_w, VF_KNOWN(C04_find_empty_needle, nd.n == 0); VF_KNOWN(C04_find_overrun, sp_has_inner_nul(nd)))
 
 /*@COMMON@*/
 /* ---- searches ([string.find] ... [string.find.last.not.of]): every overload, pos over the whole size_type range (0, size, size + 1, npos included),
@@ -708,8 +680,6 @@ H_CONTAINS(h_contains_w, VF_KNOWN(C04_find_empty_needle, nd.n == 0); VF_KNOWN(C0
 H_FIND_STR(h_find_str, VF_KNOWN(C04_find_overrun, sp_has_inner_nul(nd)))
 /*@GROUP name=find_str_m props=C04,C02 kind=K unwind=20 when=7<VF_N<=16 objbits=12 tier=thorough@*/
 H_FIND_STR(h_find_str_m, VF_KNOWN(C04_find_overrun, sp_has_inner_nul(nd)))
-/*@GROUP name=find_str_w props=C04,C02 kind=K unwind=35 when=VF_N>16 objbits=12 tier=thorough timeout=3000@*/
-H_FIND_STR(h_find_str_w, VF_KNOWN(C04_find_overrun, sp_has_inner_nul(nd)))
 
 /*@COMMON@*/
 #define H_FIND_BUF(NAME, KNOWN) void NAME(void) { ARB(s); VF_INPUT(unsigned long, pos); VF_INPUT(unsigned char, c); view_t h = view_of(&s); __CPROVER_assume(c <= N + 1); XBUF(char, src, c, N + 1); seq_t nd = seq_sub(src, c, 0, NPOS); \
@@ -719,8 +689,6 @@ H_FIND_STR(h_find_str_w, VF_KNOWN(C04_find_overrun, sp_has_inner_nul(nd)))
 H_FIND_BUF(h_find_buf, VF_KNOWN(C04_find_overrun, sp_has_inner_nul(nd)))
 /*@GROUP name=find_buf_m props=C04,C02 kind=K unwind=20 when=7<VF_N<=16 objbits=12 tier=thorough@*/
 H_FIND_BUF(h_find_buf_m, VF_KNOWN(C04_find_overrun, sp_has_inner_nul(nd)))
-/*@GROUP name=find_buf_w props=C04,C02 kind=K unwind=35 when=VF_N>16 objbits=12 tier=thorough timeout=3000@*/
-H_FIND_BUF(h_find_buf_w, VF_KNOWN(C04_find_overrun, sp_has_inner_nul(nd)))
 
 /*@COMMON@*/
 #define H_FIND_CSTR(NAME, KNOWN) void NAME(void) { ARB(s); VF_INPUT(unsigned long, pos); VF_INPUT(unsigned char, c); view_t h = view_of(&s); __CPROVER_assume(c <= N + 1); CSTR(src, c, N + 1); seq_t nd = seq_sub(src, c, 0, NPOS); \
@@ -730,8 +698,6 @@ H_FIND_BUF(h_find_buf_w, VF_KNOWN(C04_find_overrun, sp_has_inner_nul(nd)))
 H_FIND_CSTR(h_find_cstr, ((void)0))
 /*@GROUP name=find_cstr_m props=C04,C02 kind=K unwind=20 when=7<VF_N<=16 objbits=12 tier=thorough@*/
 H_FIND_CSTR(h_find_cstr_m, ((void)0))
-/*@GROUP name=find_cstr_w props=C04,C02 kind=K unwind=35 when=VF_N>16 objbits=12 tier=thorough timeout=3000@*/
-H_FIND_CSTR(h_find_cstr_w, ((void)0))
 
 /*@COMMON@*/
 #define H_FIND_CH(NAME, KNOWN) void NAME(void) { ARB(s); VF_INPUT(unsigned long, pos); VF_INPUT(char, ch); view_t h = view_of(&s); seq_t nd = seq_sub(&ch, 1, 0, NPOS); \
@@ -757,7 +723,7 @@ H_RFIND_STR(h_rfind_str, ((void)0))
 #define H_RFIND_CSTR(NAME, KNOWN) void NAME(void) { ARB(s); VF_INPUT(unsigned long, pos); VF_INPUT(unsigned char, c); view_t h = view_of(&s); __CPROVER_assume(c <= N + 1); CSTR(src, c, N + 1); seq_t nd = seq_sub(src, c, 0, NPOS); \
   KNOWN; unsigned long r = s_rfind_cstr(&s, src, pos); \
   VF_ASSERT(r == sp_rfind(h, nd.a, nd.n, pos), "C04: rfind(char const*, pos): the highest xpos <= pos with xpos + n <= size() and equal characters, else npos"); UNCHANGED(s, h); VF_REACH(); }
-/*@GROUP name=rfind_cstr props=C04,C02 kind=K unwind=10 when=VF_N<=7 cost=3 objbits=12@*/
+/*@GROUP name=rfind_cstr props=C04,C02 kind=K unwind=10 when=VF_N<=7 tier=thorough cost=3 objbits=12@*/
 H_RFIND_CSTR(h_rfind_cstr, ((void)0))
 
 /*@COMMON@*/
@@ -779,8 +745,6 @@ H_RFIND_CH(h_rfind_ch_w, ((void)0))
 H_FIND_FIRST_OF_STR(h_find_first_of_str, ((void)0))
 /*@GROUP name=find_first_of_str_m props=C04,C02 kind=K unwind=20 when=7<VF_N<=16 objbits=12 tier=thorough@*/
 H_FIND_FIRST_OF_STR(h_find_first_of_str_m, ((void)0))
-/*@GROUP name=find_first_of_str_w props=C04,C02 kind=K unwind=35 when=VF_N>16 objbits=12 tier=thorough timeout=3000@*/
-H_FIND_FIRST_OF_STR(h_find_first_of_str_w, ((void)0))
 
 /*@COMMON@*/
 #define H_FIND_FIRST_OF_BUF(NAME, KNOWN) void NAME(void) { ARB(s); VF_INPUT(unsigned long, pos); VF_INPUT(unsigned char, c); VF_INPUT_BOOL(sv); view_t h = view_of(&s); __CPROVER_assume(c <= N + 1); XBUF(char, src, c, N + 1); seq_t nd = seq_sub(src, c, 0, NPOS); \
@@ -788,10 +752,8 @@ H_FIND_FIRST_OF_STR(h_find_first_of_str_w, ((void)0))
   VF_ASSERT(r == sp_ffo(h, nd.a, nd.n, pos, 0), "C04: find_first_of(s, pos, n | sv): the lowest xpos >= pos whose character is in the set, else npos"); UNCHANGED(s, h); VF_REACH(); }
 /*@GROUP name=find_first_of_buf props=C04,C02 kind=K unwind=11 when=VF_N<=7 objbits=12@*/
 H_FIND_FIRST_OF_BUF(h_find_first_of_buf, ((void)0))
-/*@GROUP name=find_first_of_buf_m props=C04,C02 kind=K unwind=20 when=7<VF_N<=16 objbits=12 tier=thorough@*/
+/*@GROUP name=find_first_of_buf_m props=C04,C02 kind=K unwind=20 when=7<VF_N<=16 solver=kissat timeout=4000 objbits=12 tier=thorough@*/
 H_FIND_FIRST_OF_BUF(h_find_first_of_buf_m, ((void)0))
-/*@GROUP name=find_first_of_buf_w props=C04,C02 kind=K unwind=35 when=VF_N>16 objbits=12 tier=thorough timeout=3000@*/
-H_FIND_FIRST_OF_BUF(h_find_first_of_buf_w, ((void)0))
 
 /*@COMMON@*/
 #define H_FIND_FIRST_OF_CSTR(NAME, KNOWN) void NAME(void) { ARB(s); VF_INPUT(unsigned long, pos); VF_INPUT(unsigned char, c); view_t h = view_of(&s); __CPROVER_assume(c <= N + 1); CSTR(src, c, N + 1); seq_t nd = seq_sub(src, c, 0, NPOS); \
@@ -801,8 +763,6 @@ H_FIND_FIRST_OF_BUF(h_find_first_of_buf_w, ((void)0))
 H_FIND_FIRST_OF_CSTR(h_find_first_of_cstr, ((void)0))
 /*@GROUP name=find_first_of_cstr_m props=C04,C02 kind=K unwind=20 when=7<VF_N<=16 objbits=12 tier=thorough@*/
 H_FIND_FIRST_OF_CSTR(h_find_first_of_cstr_m, ((void)0))
-/*@GROUP name=find_first_of_cstr_w props=C04,C02 kind=K unwind=35 when=VF_N>16 objbits=12 tier=thorough timeout=3000@*/
-H_FIND_FIRST_OF_CSTR(h_find_first_of_cstr_w, ((void)0))
 
 /*@COMMON@*/
 #define H_FIND_FIRST_OF_CH(NAME, KNOWN) void NAME(void) { ARB(s); VF_INPUT(unsigned long, pos); VF_INPUT(char, ch); view_t h = view_of(&s); seq_t nd = seq_sub(&ch, 1, 0, NPOS); \
@@ -821,10 +781,8 @@ H_FIND_FIRST_OF_CH(h_find_first_of_ch_w, ((void)0))
   VF_ASSERT(r == sp_ffo(h, nd.a, nd.n, pos, 1), "C04: find_first_not_of(str, pos): the lowest xpos >= pos whose character is not in the set, else npos"); UNCHANGED(s, h); VF_REACH(); }
 /*@GROUP name=find_first_not_of_str props=C04,C02 kind=K unwind=11 when=VF_N<=7 objbits=12@*/
 H_FIND_FIRST_NOT_OF_STR(h_find_first_not_of_str, ((void)0))
-/*@GROUP name=find_first_not_of_str_m props=C04,C02 kind=K unwind=20 when=7<VF_N<=16 objbits=12 tier=thorough@*/
+/*@GROUP name=find_first_not_of_str_m props=C04,C02 kind=K unwind=20 when=7<VF_N<=16 solver=kissat timeout=4000 objbits=12 tier=thorough@*/
 H_FIND_FIRST_NOT_OF_STR(h_find_first_not_of_str_m, ((void)0))
-/*@GROUP name=find_first_not_of_str_w props=C04,C02 kind=K unwind=35 when=VF_N>16 objbits=12 tier=thorough timeout=3000@*/
-H_FIND_FIRST_NOT_OF_STR(h_find_first_not_of_str_w, ((void)0))
 
 /*@COMMON@*/
 #define H_FIND_FIRST_NOT_OF_BUF(NAME, KNOWN) void NAME(void) { ARB(s); VF_INPUT(unsigned long, pos); VF_INPUT(unsigned char, c); view_t h = view_of(&s); __CPROVER_assume(c <= N + 1); XBUF(char, src, c, N + 1); seq_t nd = seq_sub(src, c, 0, NPOS); \
@@ -832,10 +790,8 @@ H_FIND_FIRST_NOT_OF_STR(h_find_first_not_of_str_w, ((void)0))
   VF_ASSERT(r == sp_ffo(h, nd.a, nd.n, pos, 1), "C04: find_first_not_of(s, pos, n): the lowest xpos >= pos whose character is not in the set, else npos"); UNCHANGED(s, h); VF_REACH(); }
 /*@GROUP name=find_first_not_of_buf props=C04,C02 kind=K unwind=11 when=VF_N<=7 objbits=12@*/
 H_FIND_FIRST_NOT_OF_BUF(h_find_first_not_of_buf, ((void)0))
-/*@GROUP name=find_first_not_of_buf_m props=C04,C02 kind=K unwind=20 when=7<VF_N<=16 objbits=12 tier=thorough@*/
+/*@GROUP name=find_first_not_of_buf_m props=C04,C02 kind=K unwind=20 when=7<VF_N<=16 solver=kissat timeout=4000 objbits=12 tier=thorough@*/
 H_FIND_FIRST_NOT_OF_BUF(h_find_first_not_of_buf_m, ((void)0))
-/*@GROUP name=find_first_not_of_buf_w props=C04,C02 kind=K unwind=35 when=VF_N>16 objbits=12 tier=thorough timeout=3000@*/
-H_FIND_FIRST_NOT_OF_BUF(h_find_first_not_of_buf_w, ((void)0))
 
 /*@COMMON@*/
 #define H_FIND_FIRST_NOT_OF_CSTR(NAME, KNOWN) void NAME(void) { ARB(s); VF_INPUT(unsigned long, pos); VF_INPUT(unsigned char, c); view_t h = view_of(&s); __CPROVER_assume(c <= N + 1); CSTR(src, c, N + 1); seq_t nd = seq_sub(src, c, 0, NPOS); \
@@ -843,10 +799,8 @@ H_FIND_FIRST_NOT_OF_BUF(h_find_first_not_of_buf_w, ((void)0))
   VF_ASSERT(r == sp_ffo(h, nd.a, nd.n, pos, 1), "C04: find_first_not_of(char const*, pos): the lowest xpos >= pos whose character is not in the set, else npos"); UNCHANGED(s, h); VF_REACH(); }
 /*@GROUP name=find_first_not_of_cstr props=C04,C02 kind=K unwind=11 when=VF_N<=7 objbits=12@*/
 H_FIND_FIRST_NOT_OF_CSTR(h_find_first_not_of_cstr, ((void)0))
-/*@GROUP name=find_first_not_of_cstr_m props=C04,C02 kind=K unwind=20 when=7<VF_N<=16 objbits=12 tier=thorough@*/
+/*@GROUP name=find_first_not_of_cstr_m props=C04,C02 kind=K unwind=20 when=7<VF_N<=16 solver=kissat timeout=4000 objbits=12 tier=thorough@*/
 H_FIND_FIRST_NOT_OF_CSTR(h_find_first_not_of_cstr_m, ((void)0))
-/*@GROUP name=find_first_not_of_cstr_w props=C04,C02 kind=K unwind=35 when=VF_N>16 objbits=12 tier=thorough timeout=3000@*/
-H_FIND_FIRST_NOT_OF_CSTR(h_find_first_not_of_cstr_w, ((void)0))
 
 /*@COMMON@*/
 #define H_FIND_FIRST_NOT_OF_CH(NAME, KNOWN) void NAME(void) { ARB(s); VF_INPUT(unsigned long, pos); VF_INPUT(char, ch); view_t h = view_of(&s); seq_t nd = seq_sub(&ch, 1, 0, NPOS); \
@@ -867,8 +821,6 @@ H_FIND_FIRST_NOT_OF_CH(h_find_first_not_of_ch_w, ((void)0))
 H_FIND_LAST_OF_STR(h_find_last_of_str, VF_KNOWN(C04_find_last_empty, h.n == 0))
 /*@GROUP name=find_last_of_str_m props=C04,C02 kind=K unwind=20 when=7<VF_N<=16 objbits=12 tier=thorough@*/
 H_FIND_LAST_OF_STR(h_find_last_of_str_m, VF_KNOWN(C04_find_last_empty, h.n == 0))
-/*@GROUP name=find_last_of_str_w props=C04,C02 kind=K unwind=35 when=VF_N>16 objbits=12 tier=thorough timeout=3000@*/
-H_FIND_LAST_OF_STR(h_find_last_of_str_w, VF_KNOWN(C04_find_last_empty, h.n == 0))
 
 /*@COMMON@*/
 #define H_FIND_LAST_OF_BUF(NAME, KNOWN) void NAME(void) { ARB(s); VF_INPUT(unsigned long, pos); VF_INPUT(unsigned char, c); view_t h = view_of(&s); __CPROVER_assume(c <= N + 1); XBUF(char, src, c, N + 1); seq_t nd = seq_sub(src, c, 0, NPOS); \
@@ -878,8 +830,6 @@ H_FIND_LAST_OF_STR(h_find_last_of_str_w, VF_KNOWN(C04_find_last_empty, h.n == 0)
 H_FIND_LAST_OF_BUF(h_find_last_of_buf, VF_KNOWN(C04_find_last_empty, h.n == 0))
 /*@GROUP name=find_last_of_buf_m props=C04,C02 kind=K unwind=20 when=7<VF_N<=16 objbits=12 tier=thorough@*/
 H_FIND_LAST_OF_BUF(h_find_last_of_buf_m, VF_KNOWN(C04_find_last_empty, h.n == 0))
-/*@GROUP name=find_last_of_buf_w props=C04,C02 kind=K unwind=35 when=VF_N>16 objbits=12 tier=thorough timeout=3000@*/
-H_FIND_LAST_OF_BUF(h_find_last_of_buf_w, VF_KNOWN(C04_find_last_empty, h.n == 0))
 
 /*@COMMON@*/
 #define H_FIND_LAST_OF_CSTR(NAME, KNOWN) void NAME(void) { ARB(s); VF_INPUT(unsigned long, pos); VF_INPUT(unsigned char, c); view_t h = view_of(&s); __CPROVER_assume(c <= N + 1); CSTR(src, c, N + 1); seq_t nd = seq_sub(src, c, 0, NPOS); \
@@ -889,8 +839,6 @@ H_FIND_LAST_OF_BUF(h_find_last_of_buf_w, VF_KNOWN(C04_find_last_empty, h.n == 0)
 H_FIND_LAST_OF_CSTR(h_find_last_of_cstr, VF_KNOWN(C04_find_last_empty, h.n == 0))
 /*@GROUP name=find_last_of_cstr_m props=C04,C02 kind=K unwind=20 when=7<VF_N<=16 objbits=12 tier=thorough@*/
 H_FIND_LAST_OF_CSTR(h_find_last_of_cstr_m, VF_KNOWN(C04_find_last_empty, h.n == 0))
-/*@GROUP name=find_last_of_cstr_w props=C04,C02 kind=K unwind=35 when=VF_N>16 objbits=12 tier=thorough timeout=3000@*/
-H_FIND_LAST_OF_CSTR(h_find_last_of_cstr_w, VF_KNOWN(C04_find_last_empty, h.n == 0))
 
 /*@COMMON@*/
 #define H_FIND_LAST_OF_CH(NAME, KNOWN) void NAME(void) { ARB(s); VF_INPUT(unsigned long, pos); VF_INPUT(char, ch); view_t h = view_of(&s); seq_t nd = seq_sub(&ch, 1, 0, NPOS); \
@@ -909,10 +857,8 @@ H_FIND_LAST_OF_CH(h_find_last_of_ch_w, VF_KNOWN(C04_find_last_empty, h.n == 0))
   VF_ASSERT(r == sp_flo(h, nd.a, nd.n, pos, 1), "C04: find_last_not_of(str, pos): the highest xpos <= pos, xpos < size(), whose character is not in the set, else npos"); UNCHANGED(s, h); VF_REACH(); }
 /*@GROUP name=find_last_not_of_str props=C04,C02 kind=K unwind=11 when=VF_N<=7 objbits=12@*/
 H_FIND_LAST_NOT_OF_STR(h_find_last_not_of_str, VF_KNOWN(C04_find_last_empty, h.n == 0))
-/*@GROUP name=find_last_not_of_str_m props=C04,C02 kind=K unwind=20 when=7<VF_N<=16 objbits=12 tier=thorough@*/
+/*@GROUP name=find_last_not_of_str_m props=C04,C02 kind=K unwind=20 when=7<VF_N<=16 solver=kissat timeout=4000 objbits=12 tier=thorough@*/
 H_FIND_LAST_NOT_OF_STR(h_find_last_not_of_str_m, VF_KNOWN(C04_find_last_empty, h.n == 0))
-/*@GROUP name=find_last_not_of_str_w props=C04,C02 kind=K unwind=35 when=VF_N>16 objbits=12 tier=thorough timeout=3000@*/
-H_FIND_LAST_NOT_OF_STR(h_find_last_not_of_str_w, VF_KNOWN(C04_find_last_empty, h.n == 0))
 
 /*@COMMON@*/
 #define H_FIND_LAST_NOT_OF_BUF(NAME, KNOWN) void NAME(void) { ARB(s); VF_INPUT(unsigned long, pos); VF_INPUT(unsigned char, c); view_t h = view_of(&s); __CPROVER_assume(c <= N + 1); XBUF(char, src, c, N + 1); seq_t nd = seq_sub(src, c, 0, NPOS); \
@@ -920,10 +866,8 @@ H_FIND_LAST_NOT_OF_STR(h_find_last_not_of_str_w, VF_KNOWN(C04_find_last_empty, h
   VF_ASSERT(r == sp_flo(h, nd.a, nd.n, pos, 1), "C04: find_last_not_of(s, pos, n): the highest xpos <= pos, xpos < size(), whose character is not in the set, else npos"); UNCHANGED(s, h); VF_REACH(); }
 /*@GROUP name=find_last_not_of_buf props=C04,C02 kind=K unwind=11 when=VF_N<=7 objbits=12@*/
 H_FIND_LAST_NOT_OF_BUF(h_find_last_not_of_buf, VF_KNOWN(C04_find_last_empty, h.n == 0))
-/*@GROUP name=find_last_not_of_buf_m props=C04,C02 kind=K unwind=20 when=7<VF_N<=16 objbits=12 tier=thorough@*/
+/*@GROUP name=find_last_not_of_buf_m props=C04,C02 kind=K unwind=20 when=7<VF_N<=16 solver=kissat timeout=4000 objbits=12 tier=thorough@*/
 H_FIND_LAST_NOT_OF_BUF(h_find_last_not_of_buf_m, VF_KNOWN(C04_find_last_empty, h.n == 0))
-/*@GROUP name=find_last_not_of_buf_w props=C04,C02 kind=K unwind=35 when=VF_N>16 objbits=12 tier=thorough timeout=3000@*/
-H_FIND_LAST_NOT_OF_BUF(h_find_last_not_of_buf_w, VF_KNOWN(C04_find_last_empty, h.n == 0))
 
 /*@COMMON@*/
 #define H_FIND_LAST_NOT_OF_CSTR(NAME, KNOWN) void NAME(void) { ARB(s); VF_INPUT(unsigned long, pos); VF_INPUT(unsigned char, c); view_t h = view_of(&s); __CPROVER_assume(c <= N + 1); CSTR(src, c, N + 1); seq_t nd = seq_sub(src, c, 0, NPOS); \
@@ -931,10 +875,8 @@ H_FIND_LAST_NOT_OF_BUF(h_find_last_not_of_buf_w, VF_KNOWN(C04_find_last_empty, h
   VF_ASSERT(r == sp_flo(h, nd.a, nd.n, pos, 1), "C04: find_last_not_of(char const*, pos): the highest xpos <= pos, xpos < size(), whose character is not in the set, else npos"); UNCHANGED(s, h); VF_REACH(); }
 /*@GROUP name=find_last_not_of_cstr props=C04,C02 kind=K unwind=11 when=VF_N<=7 objbits=12@*/
 H_FIND_LAST_NOT_OF_CSTR(h_find_last_not_of_cstr, VF_KNOWN(C04_find_last_empty, h.n == 0))
-/*@GROUP name=find_last_not_of_cstr_m props=C04,C02 kind=K unwind=20 when=7<VF_N<=16 objbits=12 tier=thorough@*/
+/*@GROUP name=find_last_not_of_cstr_m props=C04,C02 kind=K unwind=20 when=7<VF_N<=16 solver=kissat timeout=4000 objbits=12 tier=thorough@*/
 H_FIND_LAST_NOT_OF_CSTR(h_find_last_not_of_cstr_m, VF_KNOWN(C04_find_last_empty, h.n == 0))
-/*@GROUP name=find_last_not_of_cstr_w props=C04,C02 kind=K unwind=35 when=VF_N>16 objbits=12 tier=thorough timeout=3000@*/
-H_FIND_LAST_NOT_OF_CSTR(h_find_last_not_of_cstr_w, VF_KNOWN(C04_find_last_empty, h.n == 0))
 
 /*@COMMON@*/
 #define H_FIND_LAST_NOT_OF_CH(NAME, KNOWN) void NAME(void) { ARB(s); VF_INPUT(unsigned long, pos); VF_INPUT(char, ch); view_t h = view_of(&s); seq_t nd = seq_sub(&ch, 1, 0, NPOS); \
@@ -960,8 +902,6 @@ H_FIND_LAST_NOT_OF_CH(h_find_last_not_of_ch_w, VF_KNOWN(C04_find_last_empty, h.n
 H_DEFAULTS_FWD(h_defaults_fwd, VF_KNOWN(C04_find_overrun, which <= 1 && sp_has_inner_nul(nd)))
 /*@GROUP name=defaults_fwd_m props=C04,C02 kind=K unwind=20 when=7<VF_N<=16 objbits=12 tier=thorough@*/
 H_DEFAULTS_FWD(h_defaults_fwd_m, VF_KNOWN(C04_find_overrun, which <= 1 && sp_has_inner_nul(nd)))
-/*@GROUP name=defaults_fwd_w props=C04,C02 kind=K unwind=35 when=VF_N>16 objbits=12 tier=thorough timeout=3000@*/
-H_DEFAULTS_FWD(h_defaults_fwd_w, VF_KNOWN(C04_find_overrun, which <= 1 && sp_has_inner_nul(nd)))
 
 /*@COMMON@*/
 /* N >= 15: find_end > search > compare are three nested loops; unwound 19^3 times they exhaust the 10 GB memory limit: not covered (m, w skipped) */
@@ -981,8 +921,6 @@ H_DEFAULTS_RFIND(h_defaults_rfind, VF_KNOWN(C04_backward_default_pos, sp_rfind(h
 H_DEFAULTS_FIND_LAST_OF(h_defaults_find_last_of, VF_KNOWN(C04_find_last_empty, h.n == 0); VF_KNOWN(C04_backward_default_pos, sp_flo(h, nd.a, nd.n, NPOS, 0) != sp_flo(h, nd.a, nd.n, 0, 0)))
 /*@GROUP name=defaults_find_last_of_m props=C04,C02 kind=K unwind=20 when=7<VF_N<=16 objbits=12 tier=thorough@*/
 H_DEFAULTS_FIND_LAST_OF(h_defaults_find_last_of_m, VF_KNOWN(C04_find_last_empty, h.n == 0); VF_KNOWN(C04_backward_default_pos, sp_flo(h, nd.a, nd.n, NPOS, 0) != sp_flo(h, nd.a, nd.n, 0, 0)))
-/*@GROUP name=defaults_find_last_of_w props=C04,C02 kind=K unwind=35 when=VF_N>16 objbits=12 tier=thorough timeout=3000@*/
-H_DEFAULTS_FIND_LAST_OF(h_defaults_find_last_of_w, VF_KNOWN(C04_find_last_empty, h.n == 0); VF_KNOWN(C04_backward_default_pos, sp_flo(h, nd.a, nd.n, NPOS, 0) != sp_flo(h, nd.a, nd.n, 0, 0)))
 
 /*@COMMON@*/
 #define H_DEFAULTS_FIND_LAST_NOT_OF(NAME, KNOWN) void NAME(void) { ARB(s); ARB(t); VF_INPUT(unsigned char, c); VF_INPUT(char, ch); VF_INPUT(unsigned char, kind); view_t h = view_of(&s), b = view_of(&t); __CPROVER_assume(kind <= 2 && c <= N); CSTR(src, c, N); \
@@ -993,8 +931,6 @@ H_DEFAULTS_FIND_LAST_OF(h_defaults_find_last_of_w, VF_KNOWN(C04_find_last_empty,
 H_DEFAULTS_FIND_LAST_NOT_OF(h_defaults_find_last_not_of, VF_KNOWN(C04_find_last_empty, h.n == 0); VF_KNOWN(C04_backward_default_pos, sp_flo(h, nd.a, nd.n, NPOS, 1) != sp_flo(h, nd.a, nd.n, 0, 1)))
 /*@GROUP name=defaults_find_last_not_of_m props=C04,C02 kind=K unwind=20 when=7<VF_N<=16 objbits=12 tier=thorough@*/
 H_DEFAULTS_FIND_LAST_NOT_OF(h_defaults_find_last_not_of_m, VF_KNOWN(C04_find_last_empty, h.n == 0); VF_KNOWN(C04_backward_default_pos, sp_flo(h, nd.a, nd.n, NPOS, 1) != sp_flo(h, nd.a, nd.n, 0, 1)))
-/*@GROUP name=defaults_find_last_not_of_w props=C04,C02 kind=K unwind=35 when=VF_N>16 objbits=12 tier=thorough timeout=3000@*/
-H_DEFAULTS_FIND_LAST_NOT_OF(h_defaults_find_last_not_of_w, VF_KNOWN(C04_find_last_empty, h.n == 0); VF_KNOWN(C04_backward_default_pos, sp_flo(h, nd.a, nd.n, NPOS, 1) != sp_flo(h, nd.a, nd.n, 0, 1)))
 
 /*@COMMON@*/
 /* ---- operator+: (string, string) and (x, string) append through push_back (contract: the result fits); (string, char const*) and (string, ch) clamp */
@@ -1107,8 +1043,6 @@ H_VIOL_POS(h_viol_pos_w, ((void)0))
 H_VIOL_POS_UNCHECKED(h_viol_pos_unchecked, VF_KNOWN(C05_insert_pos_unchecked, op == 0); VF_KNOWN(C05_erase_pos_unchecked, op == 1 ? (cnt < o.n || cnt > (unsigned long)(N + 1 - p)) : op == 2 ? o.n > 1 : op == 3 && (unsigned long)(p - q) < o.n))
 /*@GROUP name=viol_pos_unchecked_m props=C05,C02 kind=K unwind=20 when=7<VF_N<=16 objbits=12 tier=thorough@*/
 H_VIOL_POS_UNCHECKED(h_viol_pos_unchecked_m, VF_KNOWN(C05_insert_pos_unchecked, op == 0); VF_KNOWN(C05_erase_pos_unchecked, op == 1 ? (cnt < o.n || cnt > (unsigned long)(N + 1 - p)) : op == 2 ? o.n > 1 : op == 3 && (unsigned long)(p - q) < o.n))
-/*@GROUP name=viol_pos_unchecked_w props=C05,C02 kind=K unwind=35 when=VF_N>16 objbits=12 tier=thorough timeout=3000@*/
-H_VIOL_POS_UNCHECKED(h_viol_pos_unchecked_w, VF_KNOWN(C05_insert_pos_unchecked, op == 0); VF_KNOWN(C05_erase_pos_unchecked, op == 1 ? (cnt < o.n || cnt > (unsigned long)(N + 1 - p)) : op == 2 ? o.n > 1 : op == 3 && (unsigned long)(p - q) < o.n))
 
 /*@COMMON@*/
 /* a reversed iterator pair */
@@ -1118,5 +1052,3 @@ H_VIOL_POS_UNCHECKED(h_viol_pos_unchecked_w, VF_KNOWN(C05_insert_pos_unchecked, 
 H_VIOL_RANGE(h_viol_range, ((void)0))
 /*@GROUP name=viol_range_m props=C05,C02 kind=K unwind=20 when=7<VF_N<=16@*/
 H_VIOL_RANGE(h_viol_range_m, ((void)0))
-/*@GROUP name=viol_range_w props=C05,C02 kind=K unwind=35 when=VF_N>16 tier=thorough timeout=3000@*/
-H_VIOL_RANGE(h_viol_range_w, ((void)0))
